@@ -2,3 +2,111 @@
 LEVEL_TEXT = ("Deductive: LEFT/RIGHT/MID/LEN ... are verified path by path against spec functions with z3 strings "
               "(CPython slice semantics); laws are lemmas over the contracts. Bounded: SUBSTITUTE k-th occurrence, case functions.")
 TRUSTED = ['CPython str methods (upper/lower/title/strip/replace/join) as uninterpreted functions', 'z3 5.1 sequence solver']
+
+
+def extra(report, env):
+    """ the algebra of the statement end to end through Parser.parse, over a character-rich set of texts """
+    import random
+    import itertools
+    from pyvc import e2e
+    from props.common import bounded
+    rng = random.Random(env['seed'])
+    p = e2e.new_parser()
+    alphabet = ['a', 'B', 'z', ' ', ' ', '1', 'é', 'ß', '中', '\t', '\n', '\x01', '\x1f', '\x7f', '\x85', '\xa0', '\xad', '　', '​', '"', "'", '-', '.']
+    fixed = ['', ' ', 'a', 'abc', 'Hello World', '  lead', 'trail  ', 'a  b   c', 'ǆ', 'o\'neil mc-x', 'x\x01y\x1fz', 'a\xa0b', 'soft\xadhyphen', 'wide　space',
+             'zero​width', 'del\x7fete', 'aXbXcXd', 'aaaa', 'tab\tsep', 'line\nbreak']
+    texts = fixed + [''.join(rng.choice(alphabet) for _ in range(rng.randint(0, 9))) for _ in range(150 if env['tier'] == 'quick' else 3000)]
+    cases = 0
+    fails = []
+
+    def val(formula, **binds):
+        for k, v in binds.items():
+            p.set_variable(k, v)
+        return p.parse(formula)
+
+    def bad(formula, binds, detail):
+        if len(fails) < 5:
+            fails.append({'formula': formula, 'bindings': {k: repr(v) for k, v in binds.items()}, 'detail': detail})
+    for s in texts:
+        n = rng.randint(0, len(s) + 2)
+        b = {'s': s, 'n': n, 't': rng.choice(texts[:20]), 'blank': None}
+        checks = [
+            ('LEFT(s,n)&RIGHT(s,LEN(s)-n)', s if n <= len(s) else None, 'LEFT(s,n)&RIGHT(s,LEN(s)-n) = s'),
+            ('LEFT(s,n)', s[:n], 'the n leading characters (all when more are requested)'),
+            ('RIGHT(s,n)', s[len(s) - n:] if 0 < n <= len(s) else ('' if n == 0 else s), 'the n trailing characters'),
+            ('MID(s,1,n)', s[:n], 'MID(s,1,n) = LEFT(s,n)'),
+            ('MID(s,2,n)', s[1:1 + n], 'the n characters from position 2'),
+            ('LEN(s&t)', len(s) + len(b['t']), 'LEN(a&b) = LEN(a)+LEN(b)'),
+            ('LEN(s)', len(s), 'LEN'),
+            ('CLEAN(s)', ''.join(c for c in s if ord(c) > 31), 'CLEAN removes control characters (codes below 32) and nothing else'),
+            ('CONCATENATE(s,t,s)', s + b['t'] + s, 'CONCATENATE joins in order'),
+            ('TEXTJOIN("-",TRUE,s,blank,t,blank,s)', '-'.join((s, b['t'], s)), 'TEXTJOIN with a delimiter, blanks (not empty texts) skipped'),
+            ('TEXTJOIN("-",FALSE,s,blank,t)', '-'.join((s, '', b['t'])), 'TEXTJOIN keeping blanks as empty items'),
+            ('TEXTJOIN("",FALSE,s,t)', s + b['t'], 'TEXTJOIN with an empty delimiter'),
+            ('SUBSTITUTE(s,"X","")', s.replace('X', ''), 'SUBSTITUTE by empty text'),
+            ('SUBSTITUTE(s,"a","bb")', s.replace('a', 'bb'), 'SUBSTITUTE every occurrence'),
+            ('SUBSTITUTE(s,"q~q","zz")', s, 'SUBSTITUTE without an occurrence'),
+        ]
+        for formula, want, what in checks:
+            cases += 1
+            r = val(formula, **b)
+            if want is None:
+                continue
+            ok = r['error'] is None and r['result'] == want and type(r['result']) is type(want)
+            if not ok:
+                bad(formula, b, '%s: expected %r got %r' % (what, want, r))
+        # idempotence; the case functions change letter case only
+        for fn in ('UPPER', 'LOWER', 'PROPER', 'TRIM', 'CLEAN'):
+            cases += 1
+            r1 = val('%s(s)' % fn, s=s)
+            r2 = val('%s(s)' % fn, s=r1['result'])
+            if r1['error'] is not None or r2 != r1:
+                bad('%s(%s(s))' % (fn, fn), {'s': s}, '%s is idempotent: once %r, twice %r' % (fn, r1, r2))
+            if fn in ('UPPER', 'LOWER', 'PROPER') and r1['error'] is None and r1['result'].casefold() != s.casefold():
+                bad('%s(s)' % fn, {'s': s}, '%s changes letter case only: %r' % (fn, r1))
+        # TRIM touches blanks only: the words are kept, single blanks between them
+        cases += 1
+        r = val('TRIM(s)', s=s)
+        want = ' '.join(w for w in s.split(' ') if w != '')
+        if r['result'] != want:
+            bad('TRIM(s)', {'s': s}, 'TRIM changes only surplus spaces (U+0020): expected %r got %r' % (want, r))
+        # k-th occurrence
+        for k in (1, 2, 3):
+            cases += 1
+            parts = s.split('a')
+            want = s if len(parts) <= k else 'a'.join(parts[:k]) + '#' + 'a'.join(parts[k:])
+            r = val('SUBSTITUTE(s,"a","#",%d)' % k, s=s)
+            if r['result'] != want:
+                bad('SUBSTITUTE(s,"a","#",%d)' % k, {'s': s}, 'only the %d-th occurrence: expected %r got %r' % (k, want, r))
+    for nneg in (-1, -5):
+        for f in ('LEFT("abc",%d)', 'RIGHT("abc",%d)', 'MID("abc",1,%d)'):
+            cases += 1
+            r = p.parse(f % nneg)
+            if r['error'] != '#VALUE!':
+                bad(f % nneg, {}, 'a negative count is #VALUE!: got %r' % (r,))
+    for n in list(range(1, 256)) + [256, 8364, 0x4E2D, 0x10FFFF]:
+        cases += 1
+        r = p.parse('CODE(CHAR(%d))' % n)
+        if r['result'] != n:
+            bad('CODE(CHAR(%d))' % n, {}, 'CODE(CHAR(n)) = n: got %r' % (r,))
+    # blanks and nested arrays among the items of TEXTJOIN / CONCATENATE
+    p.set_variable('arr', ['a', None, ['b', '', ['c']], None])
+    for formula, want in (('TEXTJOIN(",",TRUE,arr)', 'a,b,,c'), ('TEXTJOIN("",TRUE,arr)', 'abc'), ('TEXTJOIN("+",TRUE,"x",arr,"y")', 'x+a+b++c+y'),
+                          ('TEXTJOIN(",",FALSE,arr)', 'a,,b,,c,'),
+                          ('TEXTJOIN(",",TRUE,{"a",,"b"})', 'a,b'), ('TEXTJOIN("",TRUE,{"a",,"b"})', 'ab')):
+        cases += 1
+        r = p.parse(formula)
+        if r['result'] != want:
+            bad(formula, {'arr': "['a', None, ['b', '', ['c']], None]"}, 'items in order, blanks skipped: expected %r got %r' % (want, r))
+    bounded(report, 'C15.algebra', '20 fixed + seeded texts over a 23-character alphabet (letters, blanks, control characters, no-break / ideographic / zero-width '
+            'spaces, soft hyphen, DEL) x 14 laws of the statement, idempotence and case-only of 5 functions, TRIM, k-th SUBSTITUTE (k <= 3), negative counts, CODE(CHAR(n)) for 1..256 and 3 '
+            'code points beyond, TEXTJOIN over blanks and nested arrays', cases, fails)
+
+
+def replay(rp):
+    from pyvc import e2e
+    p = e2e.new_parser()
+    for k, v in (rp.get('bindings') or {}).items():
+        p.set_variable(k, eval(v))
+    print('parse(%r) with %r -> %r ; %s' % (rp['formula'], rp.get('bindings'), p.parse(rp['formula']), rp['detail']))
+    return 1
